@@ -156,6 +156,7 @@ type Run struct {
 	// when the build provides the in-package accessor (nil otherwise).
 	PkgSnap func() []byte
 
+	bufs   [][]byte  // long-lived caller byte buffers (Call.BW)
 	hv, hr hash.Hash // value-level and raw-level event log hashes
 	// transcript, when enabled, receives one line per step (C20 localisation).
 	Transcript *[]string
@@ -290,9 +291,31 @@ func (r *Run) resolve(op *OpDesc, c *Call) *Operands {
 			if pad < 0 || pad > 1<<12 {
 				pad = 0
 			}
-			backing := make([]byte, off+len(c.B)+pad)
-			for i := range backing {
-				backing[i] = 0xA5 ^ byte(i*7)
+			var backing []byte
+			if c.BW > 0 {
+				// long-lived caller buffer, reused from call to call
+				if r.bufs == nil {
+					r.bufs = make([][]byte, 3)
+				}
+				k := (c.BW - 1) % len(r.bufs)
+				if need := off + len(c.B) + pad; len(r.bufs[k]) < need {
+					if need < 512 {
+						need = 512
+					}
+					nb := make([]byte, need)
+					for i := range nb {
+						nb[i] = 0x5A ^ byte(i*11)
+					}
+					copy(nb, r.bufs[k])
+					r.bufs[k] = nb
+				}
+				backing = r.bufs[k]
+				r.Stats.Inc("fault/reused-caller-buffer")
+			} else {
+				backing = make([]byte, off+len(c.B)+pad)
+				for i := range backing {
+					backing[i] = 0xA5 ^ byte(i*7)
+				}
 			}
 			copy(backing[off:], c.B)
 			o.B = backing[off : off+len(c.B)]
